@@ -155,6 +155,9 @@ pub enum Tm {
     Match(Box<Tm>, Vec<(Pat, Tm)>),
     Error(String),
     Host(Host, Box<Tm>),
+    /// a host function as a value (`h.log : Int -> Int`), so that it can be aliased, stored in
+    /// records, passed around and called indirectly
+    HostFn(Host),
     /// expression with a type annotation: (e : T)
     Ann(Box<Tm>, Ty),
 }
@@ -188,7 +191,7 @@ impl Tm {
             t.visit(f);
         };
         match self {
-            Tm::Lit(_) | Tm::Unit | Tm::Var(_) | Tm::Error(_) => {}
+            Tm::Lit(_) | Tm::Unit | Tm::Var(_) | Tm::Error(_) | Tm::HostFn(_) => {}
             Tm::Lam(_, b) => go(b),
             Tm::App(a, bs) => {
                 go(a);
